@@ -326,6 +326,16 @@ func (P *Program) Check(opt CheckOpts) int {
 			fmt.Printf("OUTSIDE-SUBSET %s: %s\n", r.Func, u)
 		}
 	}
+	for _, oc := range P.Orphans {
+		if !oc.hasProp(prop) {
+			continue
+		}
+		os.MkdirAll(replayDir, 0o755)
+		path := filepath.Join(replayDir, safeFile("missing-function_"+oc.Name)+".txt")
+		os.WriteFile(path, []byte(fmt.Sprintf("property: %s\nfailed obligation: %s#exists\nthe function %s (package %s) is under contract for this property (%s:%d) but does not exist in the current tree: its obligations cannot be generated, the property is not decided\n", prop, oc.Name, oc.Name, oc.PkgPath, oc.File, oc.Line)), 0o644)
+		violations = append(violations, fmt.Sprintf("VIOLATION property=%s replay=%s no-failing-input-found", prop, path))
+		total++
+	}
 	sort.Strings(knownLines)
 	for _, l := range knownLines {
 		fmt.Println(l)
